@@ -3,6 +3,7 @@ import QF.Drv.Csv
 import QF.Drv.SortAdv
 import QF.Drv.Ryu
 import QF.Drv.Like
+import QF.Drv.Sql
 /-
 qfdriver: replays a harness transcript (stdin) through the Lean model and spec.
 Output: one line per mismatch
@@ -18,6 +19,7 @@ structure DState where
   hist : HState := {}
   csv : CState := {}
   like : LState := {}
+  sql : SqlState := {}
   checks : Nat := 0
   mism : Nat := 0
   scenarios : Nat := 0
@@ -58,6 +60,10 @@ partial def loop (h : IO.FS.Stream) (st : DState) (lineNo : Nat) : IO DState := 
       loop h st (lineNo + 1)
     | "sortadv" =>
       let st ← emit st lineNo (sortAdvLine toks)
+      loop h st (lineNo + 1)
+    | "sqlread" =>
+      let (ss, ms) := sqlLine st.sql toks
+      let st ← emit { st with sql := ss } lineNo ms
       loop h st (lineNo + 1)
     | "like" =>
       let (ls, ms) := likeLine st.like toks
